@@ -14,6 +14,13 @@ func init() {
 	register("C03", func(x *X) error {
 		x.UseNormalizedAST()
 
+		// the translated function (xlate.go): lessSpecificHost regenerated from the source on every run and
+		// proved equal to the byte-level model in Props/C03Xlate.lean. (normalizeHostNoLower and isHostPattern
+		// are refused by the translator: calls of strings.HasSuffix / strings.ContainsAny are outside its subset.)
+		xlateEmit(x, "route/table.go", []xlSpec{
+			{"", "lessSpecificHost", "XLessSpecificHost", []string{"auto"}, []string{"p0:Bytes:[]", "p1:Bytes:[]", "l0:Int:0"}, "Bool"},
+		})
+
 		// roles instead of names: the three matcher functions are "the values of route.Matcher", the per-host
 		// scan is "the method LookupHost returns a call of"
 		alias := map[string]string{}
